@@ -77,6 +77,13 @@ func b58Family(run *ev.Run, n int) {
 			}
 			return "empty", false
 		}
+		// the hash helpers the codecs are built from
+		if d := refSha256d(b); !bytes.Equal(hash.Checksum(b), d[:4]) || hash.DoubleSha256(b) != util.Uint256(d) {
+			c.fail("hash:double-sha256-or-checksum-differs-from-reference", "")
+		}
+		if hash.Hash160(b) != refHash160(b) {
+			c.fail("hash:hash160-differs-from-reference", "")
+		}
 		orig := append([]byte{}, b...)
 		enc := base58.CheckEncode(b)
 		if !bytes.Equal(b, orig) {
